@@ -50,8 +50,10 @@ const FLIP_VALUES: [i16; 7] = [0, 1, 0x7F, 0x80, 0xFF, -1, -2]; // -1 => +1, -2 
 
 pub fn load_budgets(n: usize) -> Budgets {
     Budgets {
-        // the C03 bound for files; exceeding it is a resource event decided by C03
-        work: 64 * 65536 * (n as u64 + 1),
+        // the C03 bound for files, capped: exceeding it is a resource event decided by C03, and a crash monitor has no use
+        // for a load that goes on for a minute (a 355-byte Ctrl-A file whose SAUCE record declares 1000 x 32767 cells and
+        // that scrolls 40 times needed 60 CPU-seconds, three minutes on a loaded machine - the supervisor's watchdog)
+        work: (64 * 65536 * (n as u64 + 1)).min(400_000_000),
         depth: 32,
         block_ms: -1,
     }
